@@ -401,12 +401,12 @@ func (g *c02Gen) binarySites(cat, op string, k, kc *c02Kind, xs, ys []c02V, ctxs
 		switch form {
 		case "vv":
 			variants = append(variants, variant{nil, "x", "y", c02MkSig(byIndex, []string{"x", "y"}, []string{k.Name, yk.Name}), xs, ys, "x, y"})
-		case "lv", "cv", "uv":
+		case "lv", "cv", "uv", "fv":
 			cvs := g.constValues(xs, salt)
 			for i := range cvs {
 				variants = append(variants, variant{cv: &cvs[i], ey: "y", sg: c02MkSig(byIndex, []string{"y"}, []string{yk.Name}), loopX: ys, callArgs: "x"})
 			}
-		case "vl", "vc", "vu":
+		case "vl", "vc", "vu", "vf":
 			cvs := g.constValues(ys, salt+1)
 			for i := range cvs {
 				if (op == "/" || op == "%") && c02IsZero(cvs[i]) {
@@ -436,7 +436,13 @@ func (g *c02Gen) binarySites(cat, op string, k, kc *c02Kind, xs, ys []c02V, ctxs
 				cexpr := ""
 				if v.cv != nil {
 					ck := v.cv.K
-					switch form[strings.IndexAny(form, "lcu")] {
+					switch form[strings.IndexAny(form, "lcuf")] {
+					case 'f':
+						// untyped floating-point literal with an integral value used as an integer constant
+						cexpr = v.cv.lit() + ".0"
+						if strings.HasPrefix(cexpr, "-") {
+							cexpr = "(" + cexpr + ")"
+						}
 					case 'l':
 						cexpr = v.cv.lit()
 						if cat == "shift" && form == "lv" || ck.Class == "complex" {
@@ -634,10 +640,14 @@ func (g *c02Gen) convSites(from, to *c02Kind, xs []c02V, ctxs []string) {
 			continue
 		}
 		t, _ := c02Conv(cv, to)
+		t, underflow := c02ZeroCleared(t) // a constant conversion that rounds to zero yields +0: constants have no negative zero
 		s := &c02Site{Cat: "conv", Op: to.Name, K: from, K2: to, Form: "c", Ctx: "ret", Const: &cv, Xs: []c02V{cv}, Expect: []string{t}}
 		g.nextID++
 		s.ID = g.nextID
 		s.ByIndex = true
+		if underflow {
+			s.Region = "const-conv-negzero"
+		}
 		s.Decl = fmt.Sprintf("const c%d %s = %s\n\nfunc s%d(ix int) %s { return %s(c%d) }\n", s.ID, from.Name, cv.lit(), s.ID, to.Name, to.Name, s.ID)
 		s.Call = fmt.Sprintf("s%d(x)", s.ID)
 		g.sites = append(g.sites, s)
@@ -694,17 +704,18 @@ func (g *c02Gen) enumerate() {
 	cmpCtx := []string{"ret", "asg", "def", "ifc", "ifa", "arg", "if", "for", "sw"}
 	cmpd := []string{"cmpd", "cmpd-map", "cmpd-idx", "cmpd-fld", "cmpd-ptr"}
 	allForms := []string{"vv", "lv", "vl", "cv", "vc", "uv", "vu"}
+	intForms := append(append([]string{}, allForms...), "fv", "vf")
 	salt := 0
 	// integers
 	for _, k := range c02IntKinds {
 		xs := c02IntValues(k)
 		for _, op := range c02ArithOps {
 			salt++
-			g.binarySites("bin", op, k, nil, xs, xs, valCtx, cmpd, allForms, "", salt)
+			g.binarySites("bin", op, k, nil, xs, xs, valCtx, cmpd, intForms, "", salt)
 		}
 		for _, op := range c02CmpOps {
 			salt++
-			g.binarySites("cmp", op, k, nil, xs, xs, cmpCtx, nil, allForms, "", salt)
+			g.binarySites("cmp", op, k, nil, xs, xs, cmpCtx, nil, intForms, "", salt)
 		}
 		{
 			// region stream: q = x % y, q = x << s with q an interface variable (known finding: no closure)
@@ -722,7 +733,7 @@ func (g *c02Gen) enumerate() {
 				cs := c02CountValues(kc, false)
 				salt++
 				if kc.Name == "uint" || kc.Name == "int" || kc.Name == "uint8" || kc.Name == "int64" {
-					g.binarySites("shift", op, k, kc, xs, cs, valCtx, cmpd, []string{"vv", "lv", "vl", "cv", "vc", "vu"}, "", salt)
+					g.binarySites("shift", op, k, kc, xs, cs, valCtx, cmpd, []string{"vv", "lv", "vl", "cv", "vc", "vu", "vf"}, "", salt)
 				} else {
 					g.binarySites("shift", op, k, kc, xs, cs, []string{"ret", "ifc"}, []string{"cmpd"}, []string{"vv"}, "", salt)
 				}
@@ -1092,6 +1103,10 @@ func c02KnownDefect(s *c02Site, i int, ref string) (region, predicted string) {
 			return "", ""
 		}
 		return region, predicted
+	case "const-conv-negzero":
+		// the conversion is done at run time on the float64 value of the constant
+		t, _ := c02Conv(*s.Const, s.K2)
+		return region, c02Canon(t)
 	case "iface-assign":
 		// no closure: the function stops; `q = !x` stores a bool into the interface slot with SetBool and panics in reflect.
 		// integer kinds are decided by model Y in Coq
@@ -1120,7 +1135,7 @@ func c02CoqForm(s *c02Site) string {
 	switch s.Form {
 	case "vv":
 		return "FVar"
-	case "lv", "cv", "uv":
+	case "lv", "cv", "uv", "fv":
 		return "FC0"
 	}
 	return "FC1"
@@ -1367,6 +1382,7 @@ func runC02(args []string) error {
 	var oracleNote string
 	mismatchCases := 0
 	sampleRng := newRng(*seed ^ 0xc02)
+	sampled := map[string]bool{}
 	// how many evaluations are sampled into Coq per run (besides every mismatch)
 	totalInt := 0
 	for _, s := range g.sites {
@@ -1463,8 +1479,11 @@ func runC02(args []string) error {
 				// sample of agreeing evaluations for the impl-vs-Y correspondence in Coq
 				if (s.K.isInt() || s.K.Class == "string") && sampleRng.intn(totalInt) < sampleTarget {
 					id := addCase(s, i, impl, exp)
-					if len(sm.Samples) < 6 && x.Boundary {
-						sm.Samples = append(sm.Samples, evalDesc(s, i))
+					if len(sm.Samples) < 6 && x.Boundary && !sampled[s.Cat+s.Ctx] {
+						sampled[s.Cat+s.Ctx] = true
+						d := evalDesc(s, i)
+						d["yaegi"], d["reference"] = impl, exp
+						sm.Samples = append(sm.Samples, d)
 					}
 					sm.CaseIndex[fmt.Sprint(id)] = evalDesc(s, i)
 				}
